@@ -5,6 +5,7 @@ from __future__ import annotations
 import ast
 
 from ..core import MEMO_DECORATORS, AnalysisError, Check, Scope, classify_memo_key, dotted, memo_tables, norm, strip_docstring, walk_no_nested
+from ..interp import Sym, SymInterp
 from ..variants import Variant
 from .c06 import call_site_visibility
 
@@ -73,16 +74,30 @@ class C11(Check):
         if not stores:
             raise AnalysisError("no store into the definition table found")
         registrars = set()
+        guard_calls: dict[str, set[str]] = {}
         for fname, fn, s in stores:
             key = s.targets[0].slice
-            knames = {n.id for n in ast.walk(key) if isinstance(n, ast.Name)}
-            sc = Scope(fn)
-            # guarded: a loop/if in the same function tests membership of the key in the table before the store
-            tests = [n for n in walk_no_nested(fn) if isinstance(n, (ast.While, ast.If)) and
-                     (f"{table}.get(" in norm(n.test) or f" in {table}" in norm(n.test)) and (n.lineno <= s.lineno)]
             cons = f"store {table}[{norm(key)}]"
-            if tests and any(k in norm(tests[0].test) for k in knames):
-                self.holds("K1", MOD, fname, cons, s, f"store is preceded by the collision test `{norm(tests[0].test)[:70]}` (same definition or renamed)")
+            # path summaries: at every store into the table, the path has decided a membership test of exactly the stored key
+            out = SymInterp().run_function(fn, Sym())
+            guarded = unguarded = 0
+            test_txt = ""
+            for stp in [x for x, _ in out.returns]:
+                decided = [c for c, _ in stp.conds]
+                for e in stp.events:
+                    if e[0] == "store" and e[1].startswith(f"{table}["):
+                        ktxt = e[1][len(table) + 1:-1]
+                        hits = [c for c in decided if f"{table}.get({ktxt})" in c or f"{ktxt} in {table}" in c or f"{ktxt} not in {table}" in c]
+                        if hits:
+                            guarded += 1
+                            test_txt = hits[0]
+                            for cn in ast.walk(ast.parse(hits[0], mode="eval")):
+                                if isinstance(cn, ast.Call) and isinstance(cn.func, ast.Name):
+                                    guard_calls.setdefault(fname, set()).add(cn.func.id)
+                        else:
+                            unguarded += 1
+            if guarded and not unguarded:
+                self.holds("K1", MOD, fname, cons, s, f"store is preceded by the collision test `{test_txt[:70]}` (same definition or renamed)")
                 registrars.add(fname)
             else:
                 keytxt = norm(key)
@@ -98,11 +113,12 @@ class C11(Check):
         for r in sorted(registrars):
             rf = mod.func(r)
             preds = [f for f in walk_no_nested(rf) if isinstance(f, ast.FunctionDef)]
+            preds += [mod.functions[n] for n in sorted(guard_calls.get(r, ())) if n in mod.functions and mod.functions[n] not in preds]
             for pf in preds:
                 rets = [x for x in ast.walk(pf) if isinstance(x, ast.Return) and x.value is not None]
                 early = [x for x in rets if isinstance(x.value, ast.Constant) and x.value.value is True]
                 final = [x for x in rets if not isinstance(x.value, ast.Constant)]
-                positional = final and all(("xreplace" in norm(pf) or "subs(" in norm(pf)) and isinstance(x.value, (ast.Compare, ast.Call)) for x in final)
+                positional = final and all(("xreplace" in norm(pf) or "subs(" in norm(pf)) and isinstance(x.value, (ast.Compare, ast.Call, ast.Tuple)) for x in final)
                 if early:
                     self.violated("K1", MOD, f"{r}.{pf.name}", "equivalence-only-positional", early[0],
                                   f"`{norm(sc_if(pf, early[0]))[:70]}` accepts two definitions as the same function without comparing them argument position by argument position",
@@ -298,7 +314,7 @@ class C11(Check):
             Variant("registrar-without-collision-test", MOD, "_register_fn", "    while (existing := functions.get(unique)) is not None and (not same(existing, (expr, args))):\n        unique = f'{unique}_{component}'\n", "", expect="K1|", quick=True),
             Variant("same-accepts-equal-expressions", MOD, "_register_fn", "        if len(a[1]) != len(b[1]):\n            return False", "        if len(a[1]) != len(b[1]):\n            return False\n        if a[0] == b[0]:\n            return True", expect="K1|", quick=True),
             Variant("separate-init-table", MOD, GEN, "variable_source.append(_codegen_variable(k, var, functions=functions))", "variable_source.append(_codegen_variable(k, var, functions=init_functions))", expect="K1|", quick=True),
-            Variant("parse-cache-by-qualname", "meta/source_tools.py", "", "def fn_to_sympy(", "_FN_DEF_CACHE: dict = {}\n\n\ndef _get_fn_ast_cached(fn):\n    key = (str(getattr(fn, '__module__', '')), str(getattr(fn, '__qualname__', fn)))\n    if (fn_def := _FN_DEF_CACHE.get(key)) is None:\n        fn_def = _FN_DEF_CACHE[key] = get_fn_ast(fn)\n    return fn_def\n\n\ndef fn_to_sympy(", expect="K5|", quick=True),
+            Variant("parse-cache-by-qualname", "meta/source_tools.py", "", "def fn_to_sympy(", "_FN_DEF_CACHE: dict = {}\n_get_fn_ast_uncached = get_fn_ast\n\n\ndef get_fn_ast(fn):\n    key = (str(getattr(fn, '__module__', '')), str(getattr(fn, '__qualname__', fn)))\n    if (fn_def := _FN_DEF_CACHE.get(key)) is None:\n        fn_def = _FN_DEF_CACHE[key] = _get_fn_ast_uncached(fn)\n    return fn_def\n\n\ndef fn_to_sympy(", expect="K5|", quick=True),
             Variant("coefficient-args-reversed", MOD, GEN, "args={stoich.args!r}", "args={stoich.args[::-1]!r}", expect="K1|"),
             Variant("derived-args-sorted", MOD, "_to_symbolic_repr", "sym.derived[k] = _fn_to_symbolic_repr(k, der.fn, der.args)", "sym.derived[k] = _fn_to_symbolic_repr(k, der.fn, sorted(der.args))", expect="K6|"),
             Variant("reaction-uses-unregistered-name", MOD, GEN, "fn={rxn_fn_name}", "fn={fn.fn_name}", expect="K1|"),
